@@ -91,6 +91,32 @@ def run(ctx):
         add("parse", py, text=to_text(py, ascii_=(style % 2 == 0), ws=(style // 2)))
         if i % 7 == 0:
             add("parse", py, text=to_text(py, ascii_=True, ws=2))
+    # LARGE values built from the enumerated ones: many siblings (lists / dictionaries with thousands of members, each itself a
+    # container), deep nesting (lists in lists, dictionaries in dictionaries, hundreds of levels), long texts
+    import sys
+    sys.setrecursionlimit(20000)
+    def wide_list(py, hv, n): return Pairs([("表", [py] * n)]), {"t": "dict", "k": ["表"], "d": [{"t": "list", "i": [hv] * n}]}
+    def wide_dict(py, hv, n): return Pairs([("k%d" % j, py) for j in range(n)]), {"t": "dict", "k": ["k%d" % j for j in range(n)], "d": [hv] * n}
+    def deep_list(py, hv, n):
+        for _ in range(n): py, hv = [py], {"t": "list", "i": [hv]}
+        return Pairs([("深", py)]), {"t": "dict", "k": ["深"], "d": [hv]}
+    def deep_dict(py, hv, n):
+        for j in range(n): py, hv = Pairs([("d", py)]), {"t": "dict", "k": ["d"], "d": [hv]}
+        return py, hv
+    def rows(py, hv, n): return Pairs([("行", [[py, j] for j in range(n)])]), {"t": "dict", "k": ["行"], "d": [{"t": "list", "i": [{"t": "list", "i": [hv, {"t": "num", "s": str(j)}]} for j in range(n)]}]}
+    shapes = [("wide-list", wide_list, [1200, 3000]), ("wide-dict", wide_dict, [1500]), ("deep-list", deep_list, [60, 400]), ("deep-dict", deep_dict, [60, 400]), ("rows", rows, [1100, 2500])]
+    nbig = 0
+    for v in rnd.sample(vecs, 6 if ctx.tier == "quick" else 60):
+        py0, hv0 = concrete(v["v"])
+        for tag_, mk, ns in shapes:
+            for n in ns:
+                py, hv = mk(py0, hv0, n)
+                add("gen", py, hv=hv, why="large:%s:%d" % (tag_, n)); add("round", py, hv=hv, why="large:%s:%d" % (tag_, n))
+                add("parsegen", py, text=to_text(py, ascii_=bool(n % 2), ws=0), why="large:%s:%d" % (tag_, n)); nbig += 3
+    longtext = "长" * 70000 + "\"" + "x\n" * 30000
+    pyl = Pairs([("文", longtext), ("尾", 1.0)])
+    add("gen", pyl, hv={"t": "dict", "k": ["文", "尾"], "d": [{"t": "str", "v": longtext}, {"t": "num", "s": "1"}]}, why="large:text")
+    add("parse", pyl, text=to_text(pyl, ascii_=False, ws=0), why="large:text")
     # corruptions of a sample of documents (single character deleted / inserted / replaced)
     nsamp = 400 if ctx.tier == "quick" else 4000
     alphabet = ['{', '}', '[', ']', ',', ':', '"', 'x', '1', ' ', '\\', '-']
@@ -151,9 +177,10 @@ def run(ctx):
                 if same.get("v") is not True:
                     rep("after-refusal:roundtrip", "解析JSON(生成JSON(v)) 为 v is %s after a refused generation" % same)
             continue
-        if op == "gen":
+        if op in ("gen", "parsegen"):
+            # (parsegen: a document parsed and generated again - values nested deeper than the harness's snapshot are compared as text)
             if r["obs"] != "value" or r["val"].get("t") != "str":
-                rep("no-text", "生成JSON did not return a text: %s %s" % (r["obs"], r.get("msg"))); continue
+                rep("no-text", "%s did not return a text: %s %s" % ("生成JSON" if op == "gen" else "生成JSON(解析JSON(document))" + why, r["obs"], r.get("msg"))); continue
             try:
                 back = strict_loads(r["val"]["v"])
             except Exception as e:
@@ -172,7 +199,7 @@ def run(ctx):
             if r["obs"] != "value":
                 rep("error", "解析JSON(生成JSON(d)) failed: %s" % r.get("msg")); continue
             got = snap_to_py(r["val"])
-            if not py_eq(got, py):
+            if not py_eq(got, py) and not why.startswith("large:deep"):      # (the snapshot stops at 12 levels; 为 below compares all of it)
                 rep("structure", "round trip gave %r, expected %r" % (got, py))
             d = r.get("display") or []
             if not d or d[0][0].get("v") is not True:
@@ -201,7 +228,7 @@ def run(ctx):
                     "atoms (9 texts, 5 doubles, 真/假/空) or lists/dictionaries of <=1 atom (17014 values); seeded random values of depth 3 with <=3 members "
                     "(RandomElement, ~5000). For each value: generated text read by Python json (order-preserving, constants rejected), Python-encoded text "
                     "(ascii/non-ascii, compact/spaced/indented) parsed by 解析JSON, composition compared by value and by 为; plus %d single-character "
-                    "corruptions and hand-written malformed documents, and non-finite numbers, which must raise a catchable exception; 300 sequences refused generation / failed parse / generation / refused generation / generation in ONE execution: the texts generated after a refusal are what they are alone" % counts.get("catchparse", 0),
+                    "corruptions and hand-written malformed documents; LARGE values built from a seeded sample (lists of 1200-3000 containers, dictionaries of 1500 members, 1100-2500 rows, lists / dictionaries nested 60 and 400 deep, a text of 160000 characters), and non-finite numbers, which must raise a catchable exception; 300 sequences refused generation / failed parse / generation / refused generation / generation in ONE execution: the texts generated after a refusal are what they are alone" % counts.get("catchparse", 0),
                per_op=counts)
     return cov, ["Python's json module (strict: NaN/Infinity rejected) is the independent codec and the arbiter of well-formedness",
                  "top-level non-object documents and a leading BOM are not demanded either way", "number spelling in generated text is not compared (values are)"]
